@@ -23,12 +23,15 @@ func (w *recWriter) Write(b []byte) (int, error) {
 // print_chunks replays behaviours of PrinterOut.tla.  cases: [{init: "html"|"php", chunks: [{kind, car, text}]}].
 // A chunk is carried by an Identifier (kind php) or a StmtInlineHtml (kind html) in a Root's statement list:
 // car "src" = token with a position, "syn" = token without, "val" = no token (the node's Value is written).
+// A chunk with "ff": true is not a node of its own: its token is a free-floating token in front of the next chunk's token
+// (printToken hands free-floating tokens to the same writeToken, so PrinterOut.tla owes the same pieces).
 func opPrintChunks(t Task) Result {
 	var outs []interface{}
 	for _, c := range tArr(t, "cases") {
 		cm := c.(map[string]interface{})
 		root := &ast.Root{}
 		off := 0
+		var pend []*token.Token // chunks carried as free-floating tokens of the next chunk's token ("ff": true)
 		for _, x := range cm["chunks"].([]interface{}) {
 			ch := x.(map[string]interface{})
 			text := s2b(ch["text"].(string))
@@ -41,6 +44,18 @@ func opPrintChunks(t Task) Result {
 				tk = &token.Token{ID: token.T_STRING, Value: text}
 			}
 			off += len(text)
+			if ff, _ := ch["ff"].(bool); ff && tk != nil {
+				tk.ID = token.T_WHITESPACE
+				if len(text) >= 2 && text[0] == '<' && text[1] == '?' {
+					tk.ID = token.T_OPEN_TAG
+				}
+				pend = append(pend, tk)
+				continue
+			}
+			if tk != nil && len(pend) > 0 {
+				tk.FreeFloating = pend
+				pend = nil
+			}
 			if ch["kind"].(string) == "html" {
 				n := &ast.StmtInlineHtml{InlineHtmlTkn: tk}
 				if tk == nil {
